@@ -191,7 +191,7 @@ def explore(mod, tier, seed, workers=None, time_cap=None):
     else:
         ctx = mp.get_context("fork")
         with ctx.Pool(workers) as pool:
-            results = pool.map(_run_group, jobs, chunksize=max(1, len(jobs) // (workers * 8)))
+            results = list(pool.imap_unordered(_run_group, jobs, chunksize=max(1, min(64, len(jobs) // (workers * 32)))))
     results.sort(key=lambda o: o["gi"])
 
     tot = dict(cases=0, judged=0, states=0, transitions=0)
